@@ -542,7 +542,9 @@ def r6_2(ctx):
             cls_of[s] = nm
     for s, k, c, sqe in _piece_tests(b, ex, allb):
         k = "%s:%s" % (cls_of.get(s, "direct"), k)
-        hdrs = {h2 for h2, b2 in loops.items() if s in b2}
+        # a hit answers before the next table entry or the next class is looked at: reaching any loop
+        # header (of the loop the test is in, or of a later class's loop) is 'went on without answering'
+        hdrs = set(loops)
         sx = SymEx(f)
         try:
             paths = sx.run(b, s, {}, stop=hdrs, fallback=lambda l, s=s: ex.local(l, (s, 0)))
@@ -553,11 +555,15 @@ def r6_2(ctx):
         bad = 0
         for p in paths:
             me = next((ev[4] for ev in p.events if ev[0] == "call" and ev[1][1] == s and ev[2] == SQ_EQ), None)
+            branched = False
             for cnd in p.conds:
                 if me is not None and cnd[0] == me:
                     used += 1
+                    branched = True
                     if cond_truth(cnd) is True and not (p.end == "return" and p.ret == ("const", True)):
                         bad += 1
+            if not branched and me is not None and p.end == "return" and p.ret == me:
+                used += 1       # the comparison itself is the answer (`.. || square == pawn` in tail position)
         nhit += 1
         while "is_check_cords:%s:hit-answers-true" % k in seen_keys:
             k += "'"
@@ -787,7 +793,24 @@ def _king_answer(b, ex, env, start, kblocks):
         t = b.term(bb)
         k = t["k"]
         if k == "return":
-            return interp.path_return_value(b, ex, path, env)
+            try:
+                return interp.path_return_value(b, ex, path, env)
+            except Unknown:
+                # the answer is a value bound differently on different paths: evaluate it along this path
+                from wa.pathsym import eval_path
+                penv, _ = eval_path(b, path)
+                r = penv.get(0)
+                if r is None:
+                    raise
+                def fill(e):
+                    # locals bound before the first king-class decision keep their value-numbered form
+                    if not isinstance(e, tuple) or not e or not isinstance(e[0], str):
+                        return e
+                    if e[0] == "opaque" and isinstance(e[1], str) and e[1].startswith("undef _"):
+                        return ex.local(int(e[1][len("undef _"):]), (path[0], 0))
+                    return tuple(fill(x) if isinstance(x, tuple) and x and isinstance(x[0], str) else
+                                 (tuple(fill(y) for y in x) if isinstance(x, tuple) else x) for x in e)
+                return eval_expr(fill(r), env)
         if k in ("goto", "call", "assert", "drop"):
             if t.get("target") is None:
                 raise Unknown(("diverges", bb))
@@ -840,8 +863,29 @@ def r6_4(ctx):
                 yield from arith_leaves(a)
         elif k in ("const", "float"):
             return
+        elif k == "var" and e not in seen_vars:
+            # a value bound on several paths (`a && b` as a value, the result of an inlined helper): its
+            # leaves are those of the expressions it may hold
+            seen_vars.add(e)
+            got = False
+            for dloc, kind in e[2]:
+                if kind != "whole":
+                    continue
+                st_ = b.stmts(dloc[0])
+                d = ex.rvalue(st_[dloc[1]]["rv"], dloc) if dloc[1] < len(st_) else (ex.call_expr(b.term(dloc[0]), dloc) if b.term(dloc[0])["k"] == "call" else None)
+                if d is None:
+                    continue
+                if d[0] in ("bin", "un", "cast", "const") or (d[0] == "call" and any(d[1].endswith(sfx) for sfx in ARITH_CALLS)) or d[0] == "var":
+                    got = True
+                    yield from arith_leaves(d)
+                else:
+                    got = False
+                    break
+            if not got:
+                yield e
         else:
             yield e
+    seen_vars = set()
     leaves = set()
     for loc, e in ds:
         leaves |= set(arith_leaves(e))
